@@ -1,0 +1,10 @@
+//go:build !verif
+
+package db
+
+// stubs so that guarded hook call sites type-check without the `verif` build tag
+
+func verifObj(p any) string                             { return "" }
+func verifSeqs(seqs []SequenceID) [][3]uint64           { return nil }
+func verifSeqSet(m map[SequenceID]struct{}) [][3]uint64 { return nil }
+func verifErr(err error) string                         { return "" }
